@@ -556,6 +556,18 @@ META = {
                   needs='a supplementary choice mapped twice with different mapping objects',
                   strengthened=None),
     # ---- seventh round ----
+    'C02-g': dict(breaks='C02', file='adsg_core/graph/incompatibility.py (get_confirmed_incompatibility_edges)',
+                  change='same edit as C14-g, found independently: only the source node of an incompatibility edge is '
+                         'tested for being confirmed',
+                  needs='see C14-g; at graph level: the incompatible option taken before the choice whose every option '
+                        'derives the other node, and the node name sorting before the option name',
+                  strengthened='see C14-g (necessary-conflict class)'),
+    'C06-g': dict(breaks='C06', file='adsg_core/graph/adsg.py (DSG.initialize_choices)',
+                  change='on an unresolvable incompatibility at initialisation the resolvable part is removed anyway '
+                         '(as the apply path does) but no marker edge is re-added',
+                  needs='a design space that is infeasible from the start: a start / permanent node incompatible with a '
+                        'node every option of an initially active choice derives; the graph is then reported feasible',
+                  strengthened=None),
     'C08-g': dict(breaks='C08', file='adsg_core/graph/adsg_nodes.py (ConnectionChoiceNode._get_assign_nodes)',
                   change='grouping nodes are refreshed in a loop over zip(src, tgt), which stops at the shorter side',
                   needs='unequal numbers of sources and targets with a grouping node (conditional member) beyond the '
